@@ -110,6 +110,7 @@ func (s *tunnelServer) serve(tunnelMetadata metadata.MD) error {
 		if err != nil {
 			return err
 		}
+		verifYield("server.recv.beforeAccept")
 		str.acceptClientFrame(in.Frame)
 	}
 }
